@@ -181,11 +181,23 @@ def run(ctx):
         m = model.method(P, cname, "execute")
         callee = model.method(P, "ValueList", callee_name)
         cparam = callee.params[1]
+        # the index parameter and the locals that are copies of it (`idx = index`)
+        names = {cparam}
+        for _ in range(3):
+            for a in ast.walk(callee.node):
+                if isinstance(a, ast.Assign) and len(a.targets) == 1 and isinstance(a.targets[0], ast.Name) \
+                        and isinstance(a.value, ast.Name) and a.value.id in names:
+                    names.add(a.targets[0].id)
+
+        def _mentions_len(e):
+            return any(isinstance(x, ast.Call) and isinstance(x.func, ast.Name) and x.func.id == "len"
+                       for x in ast.walk(e))
         callee_adds = any(
-            (isinstance(a, ast.AugAssign) and isinstance(a.op, ast.Add) and norm(a.target) == cparam) or
+            (isinstance(a, ast.AugAssign) and isinstance(a.op, ast.Add) and norm(a.target) in names
+             and _mentions_len(a.value)) or
             (isinstance(a, ast.Assign) and isinstance(a.value, ast.BinOp) and isinstance(a.value.op, ast.Add)
-             and cparam in (norm(a.value.left), norm(a.value.right)) and any(
-                 isinstance(t, ast.Name) for t in a.targets)) for a in ast.walk(callee.node))
+             and any(isinstance(x, ast.Name) and x.id in names for x in ast.walk(a.value)) and _mentions_len(a.value)
+             and any(isinstance(t, ast.Name) for t in a.targets)) for a in ast.walk(callee.node))
         states, g = _normal_states(model, m, ctx)
         n_calls = 0
         for node in g.nodes:
